@@ -217,6 +217,41 @@ theorem not_is_bool_of_a_number :
       typeOf S Γ (.not a) = .ok .bool) :=
   ⟨rfl, rfl, rfl, fun S Γ a ta ha hs => by simp [typeOf, ha, notTy, hs]⟩
 
+/-- **C03.declared_type_kept** — a method call has exactly the type the data model declares for it, whatever C++
+type that is (`short`, `unsigned int`, `size_t`, `long`, `char` … are kept by name: `cppName (declTy …)`), a
+sequence of such calls is a vector of it, and the value an event of the data model holds for it fits that column. -/
+theorem declared_type_kept (S : Sig) (Γ : TyEnv) (o s : Query) (x cls name : String) (t : CTy)
+    (ho : typeOf S Γ o = .ok (.obj cls)) (hm : S.method cls name = some t) :
+    typeOf S Γ (.meth o name) = .ok t ∧
+    (typeOf S Γ s = .ok (.vec (.obj cls)) → typeOf S Γ (.select s x (.meth (.var x) name)) = .ok (.vec t)) := by
+  refine ⟨by simp [typeOf, ho, hm], fun hs => ?_⟩
+  simp [typeOf, hs, assoc, hm]
+
+example : [declTy "const short", declTy "unsigned int", declTy "const size_t", declTy "long", declTy "const char",
+    declTy "const float", declTy "int", declTy "const double", declTy " const bool "].map cppName =
+    ["short", "unsigned int", "size_t", "long", "char", "float", "int", "double", "bool"] := by decide +kernel
+example : cppName (.vec (.vec (declTy "const unsigned int"))) = "std::vector<std::vector<unsigned int>>" := by decide +kernel
+example : hasCTy exSig (.int 3 : Val Int) (declTy "const short") = true ∧ hasCTy exSig (.dbl 3 : Val Int) (declTy "const short") = false ∧
+    hasCTy exSig (.bool true : Val Int) (declTy "const short") = false := by decide +kernel
+
+/-- **C03.fn_is_declared_floating** — a call of a user C++ function has the return type its metadata declares
+(`float` stays `float`, `double` stays `double`; each function its OWN type), a function without a declaration
+(<cmath>) is `double`; a function declared to return anything else has no type in this model (the reference
+semantics `denote` gives every function a floating value). -/
+theorem fn_is_declared_floating (S : Sig) (Γ : TyEnv) (f : String) (args : List Query) (t : CTy)
+    (h : typeOf S Γ (.fn f args) = .ok t) :
+    (t = .float ∨ t = .double) ∧ (∀ d, assoc S.fns f = some d → t = d) ∧ (assoc S.fns f = none → t = .double) := by
+  simp only [typeOf] at h
+  inv_at h
+  refine ⟨fnTy_ok h, fun d hd => ?_, fun hn => ?_⟩
+  · unfold fnTy at h; rw [hd] at h
+    cases d <;> simp at h <;> exact h.symm
+  · unfold fnTy at h; rw [hn] at h; cases h; rfl
+
+example : (typeOf { exSig with fns := [("wpf", .float), ("vpf", .double)] } [("j", .obj "Aa")]
+      (.tuple [.fn "wpf" [.meth (.var "j") "d"], .fn "vpf" [.meth (.var "j") "d", .meth (.var "j") "i"], .fn "sqrt" [.meth (.var "j") "f"]])).toOption =
+    some (.tup (.fcons "0" .float (.fcons "1" .double (.fcons "2" .double .fnil)))) := by decide +kernel
+
 /-! ### where the translator's own rule is NOT the type of Python's value (constructs outside the generated
 stream; replayed on the real translator at /repo HEAD 1c4553a, see the report of this property) -/
 
@@ -371,7 +406,8 @@ example : (finalColumnsLabeled exSig exQueryT ["a"]).toOption = none := by decid
 example : ((finalColumnsLabeled exSig exQueryT ["a", "b"]).toOption.map fun cs => cs.map fun c => (c.1, cppName c.2)) =
     some [("a", "int"), ("b", "std::vector<double>")] := by decide +kernel
 
-/-- **C03.column_shapes** — every column is a scalar, a vector or a vector of vectors of `int`/`float`/`double`/`bool`. -/
+/-- **C03.column_shapes** — every column is a scalar, a vector or a vector of vectors of `int`/`float`/`double`/`bool`
+(or another declared arithmetic type, `prim`). -/
 theorem column_shapes (S : Sig) (q : Query) (cols : List (String × CTy)) (h : finalColumns S q = .ok cols) :
     ∀ c ∈ cols, c.2.isScalar = true ∨ (∃ t, c.2 = .vec t ∧ t.isScalar = true) ∨ (∃ t, c.2 = .vec (.vec t) ∧ t.isScalar = true) := by
   obtain ⟨row, _, rfl, hs⟩ := finalColumns_ok h
